@@ -73,7 +73,7 @@ func (x *Exec) runTop(fn *ssa.Function, spec *FuncSpec) {
 	fr := x.newFrame(fn, nil)
 	fr.spec = spec
 	x.root = fr
-	st := &State{pc: "true", cells: map[*Cell]Value{}, heap: map[string]Term{}, ghost: map[string]Value{}, binds: map[string]Value{}}
+	st := &State{allocLow: "0", pc: "true", cells: map[*Cell]Value{}, heap: map[string]Term{}, ghost: map[string]Value{}, binds: map[string]Value{}}
 	for _, name := range sortedKeys(x.arrays) {
 		st.heap[name] = m.constant(name+"@0", x.arrays[name])
 	}
@@ -97,6 +97,55 @@ func (x *Exec) runTop(fn *ssa.Function, spec *FuncSpec) {
 	if errs := fr.bindLoopSpecs(); len(errs) > 0 {
 		for _, e := range errs {
 			x.genError(fr, "loop", e, fmt.Errorf("%s", e), fn.Pos())
+		}
+	}
+	// a let-bound metavariable is arbitrary until a matching call binds it
+	if spec != nil && len(spec.Lets) > 0 {
+		for _, b := range fn.Blocks {
+			for _, ins := range b.Instrs {
+				ci, ok := ins.(ssa.CallInstruction)
+				if !ok {
+					continue
+				}
+				c := ci.Common()
+				key, full := calleeKey(c)
+				for _, ld := range spec.Lets {
+					if _, done := st.binds[ld.Var]; done || !calleeMatches(ld.Pattern, key, full) {
+						continue
+					}
+					var t types.Type
+					sig := c.Signature()
+					off := 0
+					if c.IsInvoke() || sig.Recv() != nil {
+						off = 1
+					}
+					switch ld.Kind {
+					case "result":
+						if ld.N < sig.Results().Len() {
+							t = sig.Results().At(ld.N).Type()
+						}
+					case "arg":
+						if ld.N == 0 && off == 1 {
+							if c.IsInvoke() {
+								t = c.Value.Type()
+							} else if sig.Recv() != nil {
+								t = sig.Recv().Type()
+							}
+						} else if ld.N-off >= 0 && ld.N-off < sig.Params().Len() {
+							t = sig.Params().At(ld.N - off).Type()
+						}
+					case "recv":
+						if c.IsInvoke() {
+							t = c.Value.Type()
+						} else if sig.Recv() != nil {
+							t = sig.Recv().Type()
+						}
+					}
+					if t != nil {
+						st.binds[ld.Var] = m.freshValue(t, "unbound."+strings.TrimPrefix(ld.Var, "$"))
+					}
+				}
+			}
 		}
 	}
 	x.entry = st.clone()
@@ -160,9 +209,15 @@ func (x *Exec) runTop(fn *ssa.Function, spec *FuncSpec) {
 		}
 	}
 	if x.covers {
-		o := &Obligation{Kind: "cover", Fn: x.fnKey, Anchor: "return", Label: "reachable", Cover: true, PC: Or(retPCs...), Goal: "true"}
+		// vacuity guard: the last return (in block order) must be reachable under the requires
+		// and every assumed contract applied on the way (one path keeps the query small)
+		last := "false"
+		if len(retPCs) > 0 {
+			last = retPCs[len(retPCs)-1]
+		}
+		o := &Obligation{Kind: "cover", Fn: x.fnKey, Anchor: "return", Label: "reachable", Cover: true, PC: last, Goal: "true"}
 		if spec != nil {
-			o.Props = spec.Props
+			o.Props = allProps(spec)
 		}
 		x.addObligation(o)
 	}
@@ -212,7 +267,7 @@ func (x *Exec) constrainParam(v Value, nonNil bool) {
 // preexisting: a reference received from the caller is not one allocated by this activation
 // (allocations use negative base ids).
 func preexisting(r Term) Term {
-	return "(=> ((_ is base) " + r + ") (>= (rid " + r + ") 0))"
+	return "(>= (rootid " + r + ") 0)"
 }
 
 // summarise notes for evidence
@@ -283,3 +338,33 @@ func specMentions(fs *FuncSpec, prop string) bool {
 }
 
 func stripRepo(s string) string { return strings.TrimPrefix(s, repoDir()+"/") }
+
+// allProps lists every property mentioned anywhere in a function's contract.
+func allProps(fs *FuncSpec) []string {
+	var out []string
+	add := func(ps []string) {
+		for _, p := range ps {
+			if !hasProp(out, p) {
+				out = append(out, p)
+			}
+		}
+	}
+	add(fs.Props)
+	for _, c := range fs.Requires {
+		add(c.Props)
+	}
+	for _, c := range fs.Ensures {
+		add(c.Props)
+	}
+	for _, s := range fs.Sites {
+		for _, c := range s.Asserts {
+			add(c.Props)
+		}
+	}
+	for _, l := range fs.Loops {
+		for _, c := range l.Invariants {
+			add(c.Props)
+		}
+	}
+	return out
+}
